@@ -285,7 +285,7 @@ class Runner(object):
     """Prior trials (feasible points of the problem); for 'peak' the score is peaked at one of them."""
     E = env()
     cfg = self.cfg
-    trials, pts = [], []
+    pts = []
     which = rng.randrange(cfg.n_prior)
     for t in range(cfg.n_prior):
       if family == 'peak' and t == which:
@@ -294,11 +294,17 @@ class Runner(object):
       else:
         cs = [round(rng.random(), 2) for _ in range(cfg.nc)]
         ks = [rng.randrange(a) for a in cfg.ar]
-      d = {'x%d' % i: 10.0 * v for i, v in enumerate(cs)}
-      d.update({'c%d' % j: str(v) for j, v in enumerate(ks)})
-      trials.append(E['vz'].Trial(parameters=d))
       pts.append({'c': cs, 'k': ks})
-    return self.conv.to_features(trials), pts
+    return self.priors_from_points(pts), pts
+
+  def priors_from_points(self, pts):
+    E = env()
+    trials = []
+    for pt in pts:
+      d = {'x%d' % i: 10.0 * v for i, v in enumerate(pt['c'])}
+      d.update({'c%d' % j: str(v) for j, v in enumerate(pt['k'])})
+      trials.append(E['vz'].Trial(parameters=d))
+    return self.conv.to_features(trials)
 
   # -- one real execution
   def run(self, seed_int, params, pf=None):
@@ -435,7 +441,6 @@ def identify_variants(c):
                   'count=8 but only 5 evaluations: %d of the 8 returned candidates are zero-feature placeholders with reward -inf (the score function gives %.4g at zeros)' % (
                       nph, float(np.asarray(r2.rescore(params2, np.zeros((1, r2.ncp), r2.fdtype), np.zeros((1, r2.nkp), np.int32)))[0])),
                   {'config': r2.cfg.desc(), 'rewards': out2['rewards'].tolist(), 'features': out2['cont'][:, 0].tolist()})
-  return r, r2
 
 
 # ------------------------------------------------------------------ one configuration
@@ -444,7 +449,6 @@ def run_config(c, ci, cfg, n_seeds, families, state, use_fori=True):
   t0 = time.time()
   runner = Runner(cfg, use_fori=use_fori)
   desc = cfg.desc()
-  padded_run = cfg.pad is not None
   if runner.build_error is not None:
     c.prop_fail('optimizer-construction-fails', 'building the optimiser raised %r' % (runner.build_error,), {'config': desc})
     return
@@ -458,6 +462,16 @@ def run_config(c, ci, cfg, n_seeds, families, state, use_fori=True):
       pf, pts = runner.gen_priors(rng, params, fam) if cfg.n_prior else (None, None)
       seed = rng.randrange(1 << 30)
       jobs.append((fam, pdesc, params, pf, pts, seed))
+  judge_jobs(c, ci, runner, jobs, state)
+  c.dist['compile+run seconds cfg%d' % ci] = round(time.time() - t0, 1)
+  return runner
+
+
+def judge_jobs(c, ci, runner, jobs, state):
+  """Run the real optimiser on every job, replay the recorded streams through the model, judge."""
+  cfg = runner.cfg
+  desc = cfg.desc()
+  padded = (runner.ncp > cfg.nc) or (runner.nkp > len(cfg.ar))
   reqs, metas = [], []
   first_batches = {}
   for (fam, pdesc, params, pf, pts, seed) in jobs:
@@ -552,7 +566,6 @@ def run_config(c, ci, cfg, n_seeds, families, state, use_fori=True):
     placeholder = zeros_feat + (ph,)
     msc = [entry_tuple(e) for e in m['scoredPriors']]
     if pf is not None:
-      vc, vk = req_valid(pf)
       # model's masked prior rows == what the real code handed to the score function
       if [e[:2] for e in msc] != [entry_tuple(e)[:2] for e in prior_entries]:
         c.tie_break('prior features as scored (padding mask of priors)', case, [entry_tuple(e)[:2] for e in prior_entries][:2], [e[:2] for e in msc][:2])
@@ -648,8 +661,35 @@ def run_config(c, ci, cfg, n_seeds, families, state, use_fori=True):
           key = KEY_PRIOR if best_eval_key < best_prior_key else 'result-worse-than-best-prior-other'
           c.prop_fail(key, 'best returned score %r is worse than the score %r of prior %d (best evaluated candidate: key %d vs prior key %d)' % (
               best_res, best_prior, bi, best_eval_key, best_prior_key), dict(case, prior_index=bi))
-  c.dist['compile+run seconds cfg%d' % ci] = round(time.time() - t0, 1)
-  return runner
+
+
+def replay(c, path, state):
+  """./check C19 --replay <file>: re-run the recorded failing input on the real code and judge it again
+  (the witnesses of the known deviations are replayed by identify_variants on every run)."""
+  d = json.load(open(path))
+  case = d.get('case', d)
+  cf = case.get('config') if isinstance(case, dict) else None
+  if not cf or 'params' not in case:
+    c.notes.append('replay %s: a witness case, replayed by identify_variants' % path)
+    return
+  cfg = Cfg(cf['strategy'], cf['n_continuous'], cf['arities'], cf['padding'], cf['batch'], cf['count'],
+            cf['max_evaluations'], cf['n_prior'], 'replay')
+  runner = Runner(cfg)
+  if runner.build_error is not None:
+    c.prop_fail('optimizer-construction-fails', 'building the optimiser raised %r' % (runner.build_error,), {'config': cfg.desc()})
+    return
+  dt = runner.fdtype
+  pj = case['params']
+  nan_sign = case.get('score', {}).get('nan_sign', '-')
+  params = {'mode': np.int32(pj['mode']), 'center': np.asarray(pj['center'], dtype=dt).reshape(cfg.nc),
+            'sign': np.asarray(pj['sign'], dtype=dt).reshape(cfg.nc), 'table': np.asarray(pj['table'], dtype=dt),
+            'peak_c': np.asarray(pj['peak_c'], dtype=dt).reshape(cfg.nc),
+            'peak_k': np.asarray(pj['peak_k'], dtype=np.int32).reshape(len(cfg.ar)),
+            'nanval': (NEG_NAN if nan_sign == '-' else POS_NAN).astype(dt)}
+  pts = case.get('priors')
+  pf = runner.priors_from_points(pts) if (cfg.n_prior and pts) else None
+  fam = case.get('score', {}).get('family', FAMILIES[int(pj['mode'])])
+  judge_jobs(c, 0, runner, [(fam, case.get('score', {}), params, pf, pts, int(case['seed']))], state)
 
 
 def req_valid(pf):
@@ -713,6 +753,9 @@ def run(c):
   c.proof_stage()
   state = {'exact': 0, 'compared': 0, 'random_pad': 'honoured'}
   identify_variants(c)
+  if getattr(c, 'replay_path', None):
+    replay(c, c.replay_path, state)
+    return c.finish(level='proof', rule='replay of ' + c.replay_path)
   quick = c.tier == 'quick'
   cfgs = core_configs() + [gen_config(c.rng) for _ in range(1 if quick else 14)]
   families = ['interior', 'corner', 'catonly', 'plateau', 'nonfinite', 'peak']
